@@ -14,6 +14,7 @@ import (
 	"encoding/json"
 	"errors"
 	"hash"
+	"math/big"
 	"sync"
 
 	"go.step.sm/crypto/jose"
@@ -181,6 +182,74 @@ func (k *Key) SignRaw(alg string, input []byte) ([]byte, error) {
 	return nil, errors.New("unsupported alg")
 }
 
+// signECDSAShaped signs with a textbook ECDSA implementation (crypto/elliptic + math/big) so that the
+// leading byte of R and of S can be chosen: zeroR / zeroS = that byte must be 0 (otherwise it must be
+// non-zero). R is steered by drawing the per-signature secret k, S by varying an ignorable protected
+// header member "vpad" (each try costs one hash and one modular multiplication). Only for
+// alg/curve pairs whose hash length fits the curve (ES256/P-256, ES384/P-384, ES512/P-521).
+func signECDSAShaped(p *ecdsa.PrivateKey, alg string, prot map[string]any, payload []byte, zeroR, zeroS bool) (protJSON []byte, sig []byte, ok bool) {
+	curve := p.Curve
+	want := map[string]int{"ES256": 256, "ES384": 384, "ES512": 521}[alg]
+	if want == 0 || curve.Params().BitSize != want {
+		return nil, nil, false
+	}
+	n := curve.Params().N
+	size := (curve.Params().BitSize + 7) / 8
+	_, hf := hashFor(alg)
+	var k, r *big.Int
+	rb := make([]byte, size)
+	for try := 0; ; try++ {
+		if try > 100000 {
+			return nil, nil, false
+		}
+		kk, err := rand.Int(rand.Reader, new(big.Int).Sub(n, big.NewInt(1)))
+		if err != nil {
+			return nil, nil, false
+		}
+		kk.Add(kk, big.NewInt(1))
+		x, _ := curve.ScalarBaseMult(kk.Bytes())
+		rr := new(big.Int).Mod(x, n)
+		if rr.Sign() == 0 {
+			continue
+		}
+		rr.FillBytes(rb)
+		if (rb[0] == 0) == zeroR {
+			k, r = kk, rr
+			break
+		}
+	}
+	kinv := new(big.Int).ModInverse(k, n)
+	rd := new(big.Int).Mul(r, p.D)
+	sb := make([]byte, size)
+	cp := map[string]any{}
+	for key, v := range prot {
+		cp[key] = v
+	}
+	for ctr := 0; ctr < 400000; ctr++ {
+		cp["vpad"] = ctr
+		pj, err := json.Marshal(cp)
+		if err != nil {
+			return nil, nil, false
+		}
+		h := hf()
+		h.Write([]byte(b64(pj) + "." + b64(payload)))
+		z := new(big.Int).SetBytes(h.Sum(nil)) // hash length <= curve size for the pairs admitted above
+		s := new(big.Int).Add(z, rd)
+		s.Mul(s, kinv).Mod(s, n)
+		if s.Sign() == 0 {
+			continue
+		}
+		s.FillBytes(sb)
+		if (sb[0] == 0) == zeroS {
+			out := make([]byte, 2*size)
+			copy(out, rb)
+			copy(out[size:], sb)
+			return pj, out, true
+		}
+	}
+	return nil, nil, false
+}
+
 // Shape describes a JWS exactly as it will appear on the wire.
 type Shape struct {
 	Ser       string         // flat | general | compact
@@ -192,7 +261,7 @@ type Shape struct {
 	SignAlg   string         // algorithm used to compute the signature ("" = Protected["alg"]); "-" = empty signature
 	SignKey   *Key
 	Alter     bool // change the payload after signing
-	Trunc     int  // ES only. 0 none; 1 drop R[0] (searched to be 0); 2 drop S[0] (searched); 3 both (searched, bounded); 4 drop first byte regardless; 5 drop three bytes
+	Trunc     int  // ES only. 0 none; 1 drop R[0] (made 0); 2 drop S[0] (made 0); 3 both (made 0); 4 drop R[0] (made non-zero); 5 drop three bytes
 	BadSig    bool // flip a bit in the signature
 }
 
@@ -217,15 +286,16 @@ func (s *Shape) Build() (body []byte, ok bool) {
 			sig = []byte("not-a-signature")
 		} else if s.Trunc != 0 && len(sig) >= 8 {
 			half := len(sig) / 2
-			// modes 1..3 look for a signature whose dropped byte(s) are zero, so that the
-			// server's padding retry can succeed; bounded, then fall back to dropping regardless.
-			max := map[int]int{1: 4000, 2: 4000, 3: 3000}[s.Trunc]
-			for try := 0; try < max; try++ {
-				zr, zs := sig[0] == 0, sig[half] == 0
-				if (s.Trunc == 1 && zr) || (s.Trunc == 2 && zs) || (s.Trunc == 3 && zr && zs) {
-					break
+			// modes 1..3 need a signature whose dropped byte(s) are zero, so that the server's
+			// padding retry succeeds; mode 4 needs a non-zero first byte, so that it fails. Both
+			// are produced deterministically by signECDSAShaped (no bounded random search).
+			if ep, isEC := s.SignKey.Priv.(*ecdsa.PrivateKey); isEC {
+				zr := s.Trunc == 1 || s.Trunc == 3
+				zs := s.Trunc == 2 || s.Trunc == 3
+				if pj, shaped, ok := signECDSAShaped(ep, alg, s.Protected, pl, zr, zs); ok {
+					prot, sig = pj, shaped
+					input = []byte(b64(prot) + "." + b64(pl))
 				}
-				sig, _ = s.SignKey.SignRaw(alg, input)
 			}
 			switch s.Trunc {
 			case 1, 4:
@@ -239,6 +309,7 @@ func (s *Shape) Build() (body []byte, ok bool) {
 			}
 		}
 	}
+	_ = input
 	if s.BadSig && len(sig) > 0 {
 		sig = append([]byte{}, sig...)
 		sig[len(sig)/2] ^= 0x10
